@@ -653,11 +653,19 @@ func (b *BitSet) ReadFrom(r io.Reader) (n int64, err error) {
 		return n, errors.New("bit set length less than zero")
 	}
 	if int(Len) > cap(*b) {
-		*b = make([]int64, Len)
+		// the declared length comes from the peer: only the first maxPreallocBytes/8
+		// words are allocated before any of them has been read
+		first := min(int(Len), maxPreallocBytes/8)
+		*b = make([]int64, first)
 	} else {
 		*b = (*b)[:Len]
 	}
 	for i := 0; i < int(Len); i++ {
+		if i == len(*b) {
+			// every allocated word has been read: at most double the slice
+			more := min(int(Len)-i, i)
+			*b = append(*b, make([]int64, more)...)
+		}
 		n2, err := ((*Long)(&(*b)[i])).ReadFrom(r)
 		if err != nil {
 			return n + n2, err
